@@ -413,7 +413,7 @@ EXN_NAMES = ["BaseException", "KeyboardInterrupt", "SystemExit", "GreenletTimeou
              "UnicodeError", "UnicodeEncodeError", "UnicodeDecodeError", "OSError", "ConnectionRefusedError",
              "ConnectionResetError", "SocketTimeout", "GaiError", "MemcacheError", "MemcacheClientError",
              "MemcacheUnknownCommandError", "MemcacheIllegalInputError", "MemcacheServerError",
-             "MemcacheUnknownError", "MemcacheUnexpectedCloseError"]
+             "MemcacheUnknownError", "MemcacheUnexpectedCloseError", "WouldBlock"]
 
 
 def exn_name(e):
